@@ -445,18 +445,19 @@ func (w *c19Worker) reparse(i int) {
 	w.snaps[i] = c19TakeSnap(&w.decs[i])
 }
 
-var c19SamplePairs = map[[2]string]bool{
-	{"1", "9"}:               true,
-	{"15e-1", "25e-7"}:       true,
-	{"-123456789e-6", "99e1"}: true,
-	{"10000000000000000000000000000000001e-30", "9999999999999999999999999999999999e6"}: true,
-	{"-5e-1", "5e-1"}: true,
+var c19SamplePairs = map[[2]string][]int{
+	{"1", "9"}:                {c19OpQuo, c19OpQuoExact},
+	{"15e-1", "25e-7"}:        {c19OpMulExact, c19OpAdd},
+	{"-123456789e-6", "99e1"}: {c19OpQuo, c19OpSafeSubBalance},
+	{"10000000000000000000000000000000001e-30", "9999999999999999999999999999999999e6"}: {c19OpMul, c19OpMulExact, c19OpSub},
+	{"-5e-1", "5e-1"}: {c19OpAdd},
+	{"5e40", "1234567890123456789012345678901234567891e-30"}: {c19OpAdd, c19OpQuo},
 }
 
 func (w *c19Worker) pair(i, j int) {
 	n := len(w.decs)
 	ex := c19Exacts(w.rats[i], w.rats[j])
-	sample := c19SamplePairs[[2]string{w.lits[i].S, w.lits[j].S}]
+	sampleOps := c19SamplePairs[[2]string{w.lits[i].S, w.lits[j].S}]
 	pairKey := int64(i+j)*int64(n) + int64(i)
 	for op := 0; op < c19NumOps; op++ {
 		r := c19Apply(op, w.decs[i], w.decs[j])
@@ -492,7 +493,11 @@ func (w *c19Worker) pair(i, j int) {
 			}
 			report(kind, v.detail)
 		}
-		if sample && (op == c19OpAdd || op == c19OpSafeSubBalance || op == c19OpMul || op == c19OpMulExact || op == c19OpQuo || op == c19OpQuoExact) {
+		sample := false
+		for _, so := range sampleOps {
+			sample = sample || so == op
+		}
+		if sample {
 			s := map[string]interface{}{"op": c19OpNames[op], "x": w.lits[i].S, "y": w.lits[j].S, "exact": c19RatText(ex.exactFor(op))}
 			if r.err != nil {
 				s["error"] = r.err.Error()
